@@ -214,6 +214,7 @@ class extract_visitor(NodeVisitor):
             self.flow.scope.flow = self.flow
 
     visit_Try = visit_TryExcept
+    visit_TryStar = visit_TryExcept
 
     def visit_FunctionDef(self, node):
         # type: (ast.FunctionDef) -> None
